@@ -46,7 +46,7 @@ pub fn tails_f(f: Family, level: u8) -> Vec<Option<Vec<u8>>> {
 }
 
 pub fn path_values(f: Family) -> Vec<Vec<u8>> {
-	let mut v: Vec<&str> = vec!["", "/", "a", "%61", "/a", "/%61", "/a/.", "//a", "a:b", "./a:b", "a/../b:c", "/.//a", "1:b", ":", "a/b/c/d/e/f/g", "//", "/a:b", "/a:b/c", "/:", "..a:b/c", "/%7euser/%c3%a9"];
+	let mut v: Vec<&str> = vec!["", "/", "a", "%61", "/a", "/%61", "/a/.", "//a", "a:b", "./a:b", "a/../b:c", "/.//a", "1:b", ":", "a/b/c/d/e/f/g", "//", "/a:b", "/a:b/c", "/:", "..a:b/c", "/%7euser/%c3%a9", "a%3Ab", "%3a", "a%3Ab/c:d"];
 	if f == Family::Iri {
 		v.push("é/é:é");
 		v.push("é:b");
@@ -57,7 +57,7 @@ pub fn path_values(f: Family) -> Vec<Vec<u8>> {
 /// Buffer paths beyond PATH(2): shapes the library itself writes ("/.//a" after removing an
 /// authority in front of "//a") and their near misses.
 pub fn extra_buffer_paths() -> Vec<Vec<u8>> {
-	["/.//a", "/.//", "/./a", "/..//a", ".//a", "./a:b", "/.//a:b", "..a:b/c", "..:x", "...:", ".a:b", "../a:b", "/a:b/c"].iter().map(|s| domains::b(s)).collect()
+	["/.//a", "/.//", "/./a", "/..//a", ".//a", "./a:b", "/.//a:b", "..a:b/c", "..:x", "...:", ".a:b", "../a:b", "/a:b/c", "a://b/c", "a://", "b:c://d", "a:/b"].iter().map(|s| domains::b(s)).collect()
 }
 
 macro_rules! setter_values {
